@@ -9,7 +9,7 @@
 
   Every positive theorem is for ALL histories (lists of operations, no bound).
 -/
-import PercevalModel.Lemmas.C05Backend
+import PercevalModel.Lemmas.C05More
 
 namespace PM.C05
 
@@ -557,6 +557,149 @@ theorem mps_cutoff_fails_on_current_code :
       .res 1 [1, 1, 0, 0] (4, none) (some 3) := by
   decide
 
+/-! ## Wave 7: the configuration is a function of the history alone; `inputCurrent` from the shape of the history
+
+  For Stepper, Simulator and the backends the configuration after a history is computed by a cache-free machine
+  on configurations (`cfgStepSt`, `cfgStepSi`, `cfgStepB k`, Lemmas/C05More.lean): a query never changes it and a
+  setter's effect (refusals included) depends on the configuration only.  With the `…_query_eq_fresh` theorems
+  this gives the answer after ANY history as a closed function of the history, and makes earlier queries
+  irrelevant: deleting every query from a history changes no later answer.
+-/
+
+/-- Stepper: the configuration after any history (either variant of the code) is the fold of the cache-free
+configuration machine -/
+theorem stepper_config_of_history (fixed : Bool) (ops : List StOp) :
+    (exec (stepSt fixed) initSt ops).config = ops.foldl cfgStepSt ⟨none, 0, 0⟩ :=
+  exec_config_fold (stepSt fixed) St.config cfgStepSt (stepSt_config fixed) initSt ops
+
+/-- Stepper, end to end: the answer after any history is the answer of a fresh Stepper given the configuration
+the cache-free machine computes from the history -/
+theorem stepper_answer_of_history (ops : List StOp) (inp : Nat) :
+    (stepSt true (exec (stepSt true) initSt ops) (.evolve inp)).2 =
+      freshSt true (ops.foldl cfgStepSt ⟨none, 0, 0⟩) inp := by
+  rw [stepper_query_eq_fresh, stepper_config_of_history]
+
+/-- Stepper: earlier `evolve` calls are irrelevant — deleting them from the history changes no answer -/
+theorem stepper_earlier_queries_irrelevant (ops : List StOp) (inp : Nat) :
+    (stepSt true (exec (stepSt true) initSt ops) (.evolve inp)).2 =
+      (stepSt true (exec (stepSt true) initSt (ops.filter fun op => !op.isQuery)) (.evolve inp)).2 := by
+  apply stepper_history_independent
+  rw [stepper_config_of_history, stepper_config_of_history,
+    foldl_filter_query cfgStepSt StOp.isQuery cfgStepSt_query]
+
+/-- Simulator: the configuration after any history (either variant of the code) -/
+theorem simulator_config_of_history (fixed : Bool) (ops : List SiOp) :
+    (exec (stepSi fixed) initSi ops).config = ops.foldl cfgStepSi ⟨none, 0, 0, 0⟩ :=
+  exec_config_fold (stepSi fixed) Si.config cfgStepSi (stepSi_config fixed) initSi ops
+
+/-- Simulator, end to end: every query after any history has the closed form `specSiQ` of the configuration the
+cache-free machine computes from the history -/
+theorem simulator_answer_of_history (ops : List SiOp) (q : SiOp) (hq : q.isQuery = true) :
+    (stepSi true (exec (stepSi true) initSi ops) q).2 = specSiQ (ops.foldl cfgStepSi ⟨none, 0, 0, 0⟩) q := by
+  rw [simulator_query_closed_form ops q hq, simulator_config_of_history]
+
+/-- Simulator: earlier queries of any kind (`probs_svd`, `evolve`, `evolve_svd`, `probs`, `probability`,
+`prob_amplitude`) are irrelevant — deleting them from the history changes no answer -/
+theorem simulator_earlier_queries_irrelevant (ops : List SiOp) (q : SiOp) (hq : q.isQuery = true) :
+    (stepSi true (exec (stepSi true) initSi ops) q).2 =
+      (stepSi true (exec (stepSi true) initSi (ops.filter fun op => !op.isQuery)) q).2 := by
+  apply simulator_history_independent _ _ q hq
+  rw [simulator_config_of_history, simulator_config_of_history,
+    foldl_filter_query cfgStepSi SiOp.isQuery cfgStepSi_query]
+
+/-- Backends: the configuration after any history, from any state of kind `k` -/
+theorem backend_config_of_history_from (k : Kind) (ops : List Op) (s : B) (hk : s.kind = k) :
+    (exec (stepB true) s ops).config = ops.foldl (cfgStepB k) s.config := by
+  induction ops generalizing s with
+  | nil => rfl
+  | cons x xs ih =>
+    rw [exec_cons, ih _ (by rw [stepB_kind, hk]), stepB_config, hk, List.foldl_cons]
+
+theorem backend_config_of_history (k : Kind) (ops : List Op) :
+    (exec (stepB true) (initB k) ops).config = ops.foldl (cfgStepB k) ⟨none, none, none, none⟩ :=
+  backend_config_of_history_from k ops (initB k) rfl
+
+/-- Backends, end to end: for every kind, every history and every query the answer is the closed form `ansB` of
+the configuration the cache-free machine computes from the history (refused operations included) -/
+theorem backend_answer_of_history (k : Kind) (ops : List Op) (q : Q) :
+    (stepB true (exec (stepB true) (initB k) ops) (.query q)).2 =
+      ansB k (ops.foldl (cfgStepB k) ⟨none, none, none, none⟩) q := by
+  have := queryB_ans _ q (backend_inv_all_histories k ops)
+  rw [exec_kind, backend_config_of_history] at this
+  exact this
+
+/-- Backends: earlier queries are irrelevant — deleting them from the history changes no answer -/
+theorem backend_earlier_queries_irrelevant (k : Kind) (ops : List Op) (q : Q) :
+    (stepB true (exec (stepB true) (initB k) ops) (.query q)).2 =
+      (stepB true (exec (stepB true) (initB k) (ops.filter fun op => !op.isQuery)) (.query q)).2 := by
+  apply backend_history_independent
+  rw [backend_config_of_history, backend_config_of_history,
+    foldl_filter_query (cfgStepB k) Op.isQuery (cfgStepB_query k)]
+
+/-- non-vacuity: a history whose queries fill every cache, and the same history without them -/
+example : ([Op.setCircuit ⟨2, 1⟩, .setInput [1, 1], .query .dist, .setMask 1 2 none, .query .amp,
+      .setInput [1, 0]].filter fun op => !op.isQuery) =
+    [Op.setCircuit ⟨2, 1⟩, .setInput [1, 1], .setMask 1 2 none, .setInput [1, 0]] := rfl
+
+/-! ### Processor: the hypothesis `inputCurrent` discharged from the shape of the history
+
+  `inputTracked ops`: reading the history left to right, no `add_herald` comes after the last `with_input`
+  (decidable on the history; `true` for a history without `add_herald`, and for one that ends in `with_input`).
+-/
+
+/-- `inputCurrent` holds after every tracked history (both variants of the model) -/
+theorem processor_input_current_of_tracked (persist : Bool) (ops : List PrOp) (h : inputTracked ops = true) :
+    (exec (stepPr persist) initPr ops).inputCurrent :=
+  inputCurrent_of_tracked persist ops h
+
+/-- `processor_any_query_eq_fresh` with its hypothesis replaced by a decidable condition on the history -/
+theorem processor_any_query_eq_fresh_tracked (ops : List PrOp) (q : PrOp) (hq : q.isQuery = true)
+    (ht : inputTracked ops = true) :
+    (stepPr false (exec (stepPr false) initPr ops) q).2 =
+      freshPrQ false (exec (stepPr false) initPr ops).config q :=
+  processor_any_query_eq_fresh ops q hq (inputCurrent_of_tracked false ops ht)
+
+/-- the code as it is: `processor_query_eq_fresh_given_stored_filter` for every tracked history -/
+theorem processor_query_eq_fresh_given_stored_filter_tracked (ops : List PrOp) (q : PrOp) (hq : q.isQuery = true)
+    (ht : inputTracked ops = true) :
+    (stepPr true (exec (stepPr true) initPr ops) q).2 =
+      freshPrQ true (exec (stepPr true) initPr ops).configStored q :=
+  processor_query_eq_fresh_given_stored_filter ops q hq (inputCurrent_of_tracked true ops ht)
+
+/-- non-vacuity: a tracked history with a herald declared late and the input given again, and an untracked one
+(the history of `processor_herald_after_input_keeps_old_input`, on which the conclusion fails) -/
+example : inputTracked [.addComp 1, .withInput .bs 3 2, .probs none, .addHerald 2 1, .withInput .bs 3 2,
+      .setNoise (2, false), .samples] = true ∧
+    inputTracked [.addComp 1, .setFilter 0, .withInput .bs 3 2, .addHerald 2 1] = false := by decide
+
+/-- what `inputCurrent` is needed for, exactly: after ANY history that leaves a Fock-state input and a filter
+given by the user, `probs(precision)` answers what a fresh processor answers IF AND ONLY IF the heralds written
+into the merged input by the last `with_input` are the current ones (everything else — components, heralds,
+post-selection, detectors, noise, filter, precision — is current unconditionally) -/
+theorem processor_query_eq_fresh_iff_heralds_current (ops : List PrOp) (prec : Option Nat) (i : PrIn) (f : Nat)
+    (hi : (exec (stepPr false) initPr ops).input = some i) (hk : i.kind = .bs)
+    (hf : (exec (stepPr false) initPr ops).filtUser = some f) :
+    (stepPr false (exec (stepPr false) initPr ops) (.probs prec)).2 =
+        freshPr false (exec (stepPr false) initPr ops).config prec ↔
+      i.her = (exec (stepPr false) initPr ops).her := by
+  have hinv := processor_inv_all_histories false ops
+  have hfresh : freshPr false (exec (stepPr false) initPr ops).config prec =
+      specPr (exec (stepPr false) initPr ops).config prec := by
+    unfold freshPr
+    obtain ⟨c1, c2, c3⟩ := canonPr_state false (exec (stepPr false) initPr ops).config
+    rw [probsPr_spec false _ prec (processor_inv_all_histories false _) c2 c3, c1]
+  have hfs : (exec (stepPr false) initPr ops).filt = some f := by
+    rw [hinv.filt (hinv.noauto rfl)]; exact hf
+  rw [hfresh, probsPr_raw false _ prec hinv i f hi hk hfs, specPr_bs_filter _ prec i f hi hk hf]
+  simp
+
+/-- non-vacuity of the `iff`: both sides false on the history of `processor_herald_after_input_keeps_old_input` -/
+example : (exec (stepPr false) initPr [.addComp 1, .setFilter 0, .withInput .bs 3 2, .addHerald 2 1]).input =
+      some ⟨.bs, 3, 2, 0, 0⟩ ∧
+    (exec (stepPr false) initPr [.addComp 1, .setFilter 0, .withInput .bs 3 2, .addHerald 2 1]).filtUser = some 0 ∧
+    (exec (stepPr false) initPr [.addComp 1, .setFilter 0, .withInput .bs 3 2, .addHerald 2 1]).her = 2 := by
+  decide
+
 /-
   What is still outside the model (validated by the correspondence only, or not generated at all):
   * the numbers (answers are provenance); that masked and unmasked evaluation agree after herald post-selection
@@ -569,7 +712,10 @@ theorem mps_cutoff_fails_on_current_code :
     automatic filter), `with_polarized_input`, `clear_input_and_circuit`, feed-forward (`FFSimulator`
     keeps a reference to the NoiseModel), the Loss / Delay / Polarization layers `SimulatorFactory` chooses;
   * a Fock-state input that was not given again after `add_herald` (`Pr.inputCurrent` is a hypothesis; the code
-    then answers from the old merged input — `processor_herald_after_input_keeps_old_input`);
+    then answers from the old merged input — `processor_herald_after_input_keeps_old_input`); wave 7: it follows
+    from the shape of the history (`inputTracked`, `processor_input_current_of_tracked`) and is necessary
+    (`processor_query_eq_fresh_iff_heralds_current`, user filter); not proved: the `iff` without a user filter,
+    "earlier queries are irrelevant" and a cache-free configuration machine for the Processor;
   * the automatic photon filter as the code stores it is modelled (`stepPr true`) and refuted
     (`processor_auto_filter_fails_on_current_code`, `…_samples`); for the code as it is the exact statement is
     `processor_query_eq_fresh_given_stored_filter` (all histories: fresh processor given the STORED filter) with
